@@ -57,8 +57,14 @@ def validate_chunks(ctx, module, tag, traces, chunk=2000, extra_data=None, max_p
         for j, i in enumerate(idxs):
             if j in bad2:
                 if is_advisory(bad2[j]):
-                    raise RuntimeError(f'{module}: clause {bad2[j][0][2]!r} is marked "spec:" but is not guarded by Strict')
-                bad[i] = bad2[j]
+                    # rejected with Strict = FALSE, so a property clause failed; the diagnostic chain of the trace spec named a
+                    # strict-only clause first (a defect of the diagnostics, not of the verdict)
+                    w = [list(x) for x in bad2[j]]
+                    w[0][2] = 'a property clause failed in the relaxed pass (diagnostics name only: ' + str(w[0][2]) + ')'
+                    bad[i] = w
+                    ctx.notes['diagnostic_chain_gaps'] = ctx.notes.get('diagnostic_chain_gaps', 0) + 1
+                else:
+                    bad[i] = bad2[j]
             else:
                 del bad[i]
                 ctx.deviation(str(adv[i][0][2]))
